@@ -166,7 +166,12 @@ class Terms:
                         # `helper(args)?` of a private `?`-only helper: its Ok payload with the arguments substituted
                         t = _subst_params(summ[0], x_[2])
                     else:
-                        t = ("try", tried_)
+                        y_ = x_
+                        if y_[0] == "call" and short(y_[1]) in ("Option::<T>::ok_or", "Option::<T>::ok_or_else") and len(y_[2]) == 2:
+                            # `opt.ok_or(e)?` evaluates to the payload of `opt` (the `let Some(v) = opt else { return Err(e) }` form)
+                            t = ("field", ("downcast", y_[2][0], "Some"), 0)
+                        else:
+                            t = ("try", tried_)
                 else:
                     t = ("field", t, e["i"])
             elif k == "index":
@@ -464,6 +469,10 @@ def _plain_ty(ty, depth=0):
         return _plain_ty(ty["t"], depth + 1) if "t" in ty else False
     if k == "str":
         return True
+    if k == "tuple":
+        return all(_plain_ty(x, depth + 1) for x in ty.get("ts", ty.get("a", []))) if (ty.get("ts") or ty.get("a")) else False
+    if k == "adt" and ty.get("p") in ("std::vec::Vec", "alloc::vec::Vec", "std::option::Option", "core::option::Option") and ty.get("a") and depth < 3:
+        return _plain_ty(ty["a"][0], depth + 1)       # a container of plain data (`fn calibrated(..) -> Vec<f64>`)
     return False
 
 
